@@ -313,10 +313,21 @@ namespace Cinco.Config
 open Cinco Cinco.Field
 
 /-- split a dotted key at the first dot: `key.partition(".")` -/
-def partitionDot (s : List Char) : List Char × Option (List Char) :=
-  match s.span (· != '.') with
-  | (a, []) => (a, none)
-  | (a, _ :: b) => (a, some b)
+def partitionDot : List Char → List Char × Option (List Char)
+  | [] => ([], none)
+  | c :: rest =>
+    if c == '.' then ([], some rest)
+    else
+      let r := partitionDot rest
+      (c :: r.1, r.2)
+
+theorem partitionDot_no_dot : ∀ (l : List Char), '.' ∉ l → partitionDot l = (l, none)
+  | [], _ => rfl
+  | c :: rest, h => by
+    have hc : (c == '.') = false := by
+      simp only [beq_eq_false_iff_ne, ne_eq]; intro e; subst e; exact h (by simp)
+    have ih := partitionDot_no_dot rest (fun hm => h (by simp [hm]))
+    simp [partitionDot, hc, ih]
 
 def subSchema : SField → Option (Schema × Option String)
   | .sub s => some (s, none)
